@@ -93,6 +93,9 @@ def _class_level(pm, f):
         return out
     for k in pm.mro(f.cls):
         for name, v in k.attrs.items():
+            if isinstance(v, ast.Tuple) and any(isinstance(e, (ast.List, ast.Dict, ast.Set))
+                                                for e in v.elts):
+                out.add(name)
             if isinstance(v, (ast.List, ast.Dict, ast.Set)) or (
                     isinstance(v, ast.Call) and isinstance(v.func, ast.Name) and
                     v.func.id in ('list', 'dict', 'set', 'OrderedDict', 'defaultdict')):
@@ -156,6 +159,19 @@ def mutations_of(pm, f):
             note(n.func.value, 'call')
         elif isinstance(n, ast.AugAssign) and isinstance(n.target, (ast.Attribute, ast.Subscript)):
             note(n.target.value, 'item')
+    # a class-level container handed out as a value (assigned to a slot, returned, yielded):
+    # every receiver holds the same object
+    for n in own_nodes(f.node):
+        val = None
+        if isinstance(n, ast.Assign) and not (len(n.targets) == 1 and
+                                              isinstance(n.targets[0], ast.Name)):
+            val = n.value
+        elif isinstance(n, (ast.Return, ast.Yield)):
+            val = n.value
+        if isinstance(val, ast.Attribute) and isinstance(val.value, ast.Name) and \
+                val.value.id in ('self', 'cls') and val.attr in cls_level and \
+                f.name != '__init__':
+            out.add('class:%s|handed out' % val.attr)
     # a shared container handed to a function that updates that parameter in place
     mp = _mutated_params(pm)
     for n in own_nodes(f.node):
@@ -286,7 +302,7 @@ def run(pm, ctx, rule, patterns):
         n += 1
         cur_m = mutations_of(pm, f)
         new_m = [m for m in cur_m if m not in r['mutates'] and
-                 ('passed to' in m or
+                 ('passed to' in m or 'handed out' in m or
                   m.split('|')[0] not in {x.split('|')[0] for x in r['mutates']})]
         ctx.check(rule, not new_m, '%s: in-place updates as on the confirmed tree' % f.short, f.loc,
                   msg='%s now updates %s in place: an object that outlives the call (the caller\'s '
